@@ -21,9 +21,11 @@ def _handler(host, state, delay, user_commack):
     h.settings.establish_communication_timeout = delay
     cm = h._communication_state
     st = [cm.disabled, cm.not_communicating, cm.wait_cra, cm.wait_delay, cm.communicating][state]
-    for s in (cm.disabled, cm.enabled, cm.not_communicating, cm.host_initiated_connect, cm.wait_cr_from_host,
-              cm.equipment_initiated_connect, cm.wait_delay, cm.wait_cra, cm.communicating):
-        s._active = False
+    for name in ("disabled", "enabled", "not_communicating", "host_initiated_connect", "wait_cr_from_host",
+                 "equipment_initiated_connect", "wait_delay", "wait_cra", "communicating"):
+        s = getattr(cm, name, None)          # the three sub-states never entered by the library are optional
+        if s is not None:
+            s._active = False
     cm._current_state = st
     st._active = True
     if state != DISABLED:
@@ -71,7 +73,11 @@ def _fire(h, p, cm, host, event, commack, system, other=0):
     elif event == EV_S1F13:
         h._on_message_received({"message": rig.msg(F.SecsS01F13([] if not host else ["m", "1"]), system, True)})
     elif event == EV_S1F14:
-        h._on_message_received({"message": rig.msg(F.SecsS01F14({"COMMACK": commack, "MDLN": []}), system, False)})
+        if commack == 256:
+            # COMMACK item present but with zero length (wire bytes 21 00): not an acceptance
+            h._on_message_received({"message": rig.Msg(1, 14, False, system, bytes([0x01, 0x02, 0x21, 0x00, 0x01, 0x00]))})
+        else:
+            h._on_message_received({"message": rig.msg(F.SecsS01F14({"COMMACK": commack, "MDLN": []}), system, False)})
     elif event == EV_OTHER:
         h._on_message_received({"message": _other(other, system)})
     elif event == EV_T_CRA:
@@ -145,7 +151,7 @@ def _mark_fired(ft, event):
 def comm_step(host: bool, state: int, event: int, commack: int, system: int, delay: int, user_commack: int, other: int) -> bool:
     """
     pre: 0 <= state <= 4 and 0 <= event <= 8
-    pre: 0 <= commack < 256 and 0 <= system < 2**32 and 1 <= delay <= 100000 and 0 <= user_commack <= 1
+    pre: 0 <= commack <= 256 and 0 <= system < 2**32 and 1 <= delay <= 100000 and 0 <= user_commack <= 1
     pre: 0 <= other < 7
     post: _
     """
@@ -221,7 +227,7 @@ OBLIGATIONS = [
          functions=["GemHandler._on_message_received/_on_communicating/_on_state_wait_cra/_on_state_communicating/on_connection_closed",
                     "CommunicationStateMachine transitions and timer callbacks", "SecsHandler._handle_stream_function"],
          bounds="host and equipment role; every communication state; events enable, disable, link selected, link lost (protocol "
-                "'disconnected' event), inbound S1F13, S1F14 with any COMMACK byte and any system bytes (matching the outstanding S1F13 "
+                "'disconnected' event), inbound S1F13, S1F14 with any COMMACK byte or a zero-length COMMACK item and any system bytes (matching the outstanding S1F13 "
                 "or not), 7 other messages incl. SxF13/SxF14 look-alikes, WAIT_CRA timer expiry, delay timer expiry; establish-communications delay 1..100000 symbolic",
          outside="wall-clock behaviour of real threading.Timer; races between the timer thread and the dispatcher",
          findings=[dict(id="C07-s1f14-any", pred="event == 5 and state == 2 and commack != 0"),
